@@ -203,17 +203,20 @@ def zTopsAt (d : Dims) (dz tops : Nat → α) (i j : Nat) : Nat → α
 def zcornCellDTops (d : Dims) (dz tops : Nat → α) (i j k c : Nat) : α :=
   zTopsAt d dz tops i j (if c < 4 then k else k + 1)
 
-/-- Decode a ZCORN position into `(i, j, k, c)` (inverse of `zcornIdx`). -/
+/-- Decode a ZCORN position into `(i, j, k, c)` (inverse of `zcornIdx`): the position is the
+mixed-radix number `c₀ + 2(i + nx(c₁ + 2(j + ny(c₂ + 2k))))` with `c = c₀ + 2c₁ + 4c₂`. -/
 def zcornDecode (d : Dims) (idx : Nat) : Nat × Nat × Nat × Nat :=
-  let k := idx / (8 * d.nx * d.ny)
-  let r := idx % (8 * d.nx * d.ny)
-  let ck := r / (4 * d.nx * d.ny)
-  let r2 := r % (4 * d.nx * d.ny)
-  let j := r2 / (4 * d.nx)
-  let r3 := r2 % (4 * d.nx)
-  let cj := r3 / (2 * d.nx)
-  let r4 := r3 % (2 * d.nx)
-  (r4 / 2, j, k, r4 % 2 + 2 * cj + 4 * ck)
+  let c0 := idx % 2
+  let t1 := idx / 2
+  let i := t1 % d.nx
+  let t2 := t1 / d.nx
+  let c1 := t2 % 2
+  let t3 := t2 / 2
+  let j := t3 % d.ny
+  let t4 := t3 / d.ny
+  let c2 := t4 % 2
+  let k := t4 / 2
+  (i, j, k, c0 + 2 * c1 + 4 * c2)
 
 /-- Entry `idx` of a ZCORN array whose cell corners are given by `f i j k c`. -/
 def zcornOfCells (d : Dims) (f : Nat → Nat → Nat → Nat → α) (idx : Nat) : α :=
